@@ -607,6 +607,54 @@ def construct(ctx):
     return st
 
 
+# --------------------------------------------------------------------------- e2. every (p, a, b): the discriminant decides
+def _disc_shard(primes):
+    import math
+
+    from btclib.curves import Curve
+    from btclib.curves.curve_group import CurveGroup
+
+    st = Stats()
+    errs = lib_errors()
+    for p in primes:
+        for a in range(p):
+            for b in range(p):
+                st.evals += 1
+                singular = (4 * a**3 + 27 * b * b) % p == 0
+                if singular or (4 * b**3 + 27 * a * a) % p == 0:
+                    st.nontrivial += 1
+                try:
+                    CurveGroup(p, a, b)
+                    accepted = True
+                except errs:
+                    accepted = False
+                if accepted == singular:
+                    st.violation("C01/construct/discriminant-verdict", {"p": p, "a": a, "b": b}, "accepted" if accepted else "refused", "refused" if singular else "accepted")
+                st.outcomes[("singular", singular)] += 1
+                if not singular or p > 19:
+                    continue
+                # a full Curve on a singular cubic: every point of the cubic as generator, every prime order, the SEC 1 cofactor
+                for x in range(p):
+                    for y in range(1, p):
+                        if (y * y - (x**3 + a * x + b)) % p:
+                            continue
+                        for n in range(3, p + 2 + math.isqrt(4 * p)):
+                            if any(n % d == 0 for d in range(2, math.isqrt(n) + 1)) or n == p:
+                                continue
+                            st.evals += 1
+                            try:
+                                Curve(p, a, b, (x, y), n, (p + 1 + math.isqrt(4 * p)) // n, weakness_check=False)
+                                st.violation("C01/construct/singular-cubic-accepted", {"p": p, "a": a, "b": b, "G": (x, y), "n": n}, "accepted", "refused: zero discriminant")
+                            except errs:
+                                pass
+    return st
+
+
+def discriminant(ctx):
+    primes = [q for q in range(3, ctx.pick(32, 62)) if all(q % d for d in range(2, q))]
+    return ctx.pmap(_disc_shard, [[q] for q in primes])
+
+
 # --------------------------------------------------------------------------- f. number theory
 def _nt_shard(arg):
     mods, do_batch = arg
@@ -907,6 +955,7 @@ SUBS = [
     ("double_mult", double_mult),
     ("multi_mult", multi_mult),
     ("construct", construct),
+    ("discriminant", discriminant),
     ("number_theory", number_theory),
     ("sec_codec", sec_codec),
     ("catalogue", catalogue),
